@@ -47,4 +47,6 @@ def run(ctx):
     ps = scopes.py_scope("C10")
     lib_py.unused_params(ctx, py, mods=("trees", "tables", "util"), only=ps)
     lib_kind.py_lints(ctx, py, mods=("trees", "tables", "util"), only=ps)
+    from . import lib_kind4
+    lib_kind4.open_mode(ctx, py)
     lib_mem.c_lints(ctx, ctx.program(), scopes.lib_scope("C10"))
